@@ -60,6 +60,11 @@ def _equiv(name, what, tiers, covers, role):
     }
 
 
+import os
+_c13g = {"__file__": os.path.join(os.path.dirname(os.path.dirname(os.path.abspath(__file__))), "C13", "spec.py")}
+exec(compile(open(_c13g["__file__"]).read(), _c13g["__file__"], "exec"), _c13g)
+_C13 = _c13g
+_C13POST = [h for h in _c13g["SPEC"]["harnesses"] if h["name"] == "c13_post_equiv"][0]
 SPEC = {
     "property": "C12",
     "level_text": "Bounded symbolic verification of the real shred validation and commitment code. (1) SliceCommitment::new has exactly the documented 49-byte layout and is injective in (slot, slice index, last flag, root). (2) One ValidatedShred::try_new on an arbitrary shred (every header field, tag, payload, position and Merkle path element attacker-chosen) against an honest slice in the documented tree shape, with an arbitrary signature and an arbitrary cached commitment: the solver shows that the shred is accepted iff an identical commitment is cached or the given leader key signed exactly slot || slice index || last flag || derived root; that Equivocation is returned iff a different commitment is cached and the leader signed this one too; that the cached path never accepts a different commitment and never skips verification otherwise; and that under the honest commitment only the honest payload at its own index with the honest header passes (replay under another slot / slice / flag / index and any alteration are rejected). (3) Two validated shreds through BlockData::add_shred (up to, not including, slice reconstruction) in both arrival orders: conflicting commitments for one slice index are reported as Equivocation exactly when they differ and nothing of the second is stored; for different slice indices Equivocation is reported only for contradictory last-slice markers and always then, except in one input class. Three genuine defects are isolated in harnesses of their own, which FAIL on /repo: c12_tag_m1_k0 (the data/coding tag is bound neither by the signature nor by the Merkle leaf: a tag-flipped shred of a correct leader validates and gets that leader flagged), c12_lastorder (a last-slice marker below an already received slice is not reported in the arrival order 'higher slice first': the stored slice is dropped silently and FirstShred is announced a second time), c12_lastcache (the commitment of a shred rejected as equivocation stays cached). Sampling cannot enumerate header/path/cache/signature combinations; the solver covers all of them inside the bounds. Not a proof: Merkle paths of at most 3 elements over slices of at most 4 shreds, 2-byte payloads.",
@@ -106,5 +111,7 @@ SPEC = {
              bounds="fresh BlockData; three validated data shreds of three different slice indices (each < 1024; payloads fixed, pairwise different): A and B unmarked, then C marked last; every relative order of the three indices",
              timeout={"quick": 900, "thorough": 2400}, mem_gb=24),
         _equiv("c12_lastcache", "A marked last, B any other slice index", T, 1, "blockstore equivocation/rejected commitment cached"),
+        # equivocation after the block of the slot was assembled (harness shared with C13, built from C13's overlay set)
+        dict(_C13POST, build={"overlays": _C13["OVERLAYS"], "redirects": _C13["REDIRECTS"], "coll_cap": 3}),
     ],
 }
